@@ -9,7 +9,7 @@ use crate::{Case, Prop, Tier};
 pub struct C05Prop;
 pub static C05: C05Prop = C05Prop;
 
-fn gen_program(rng: &mut Rng, return_in_for: bool) -> (Vec<String>, bool, usize) {
+pub fn gen_program(rng: &mut Rng, return_in_for: bool) -> (Vec<String>, bool, usize) {
     let mut g = Gen { rng, next_id: 0, lines: 0, max_depth: 3, loops: 0, canonical_only: false, calls: vec![], in_fn: false, in_for: 0, return_in_for, made_return_in_for: false };
     let nf = 1 + g.rng.below(3);
     let mut stmts: Vec<Vec<String>> = vec![];
